@@ -7,6 +7,7 @@ From Hy Require Import lib.Bytes model.C06_Relay model.C06_Request proof.C06_Rel
 From Hy Require Import model.C06_Pool proof.C06_Pool model.C06_Close proof.C06_Close.
 From Hy Require Import model.C04_Framing model.C06_E2E proof.C06_E2E proof.C06_Frames.
 From Hy Require Import model.C06_Hook proof.C06_Hook proof.C06_Poll.
+From Hy Require Import model.C06_Events proof.C06_Events.
 From Coq Require Import List NArith ZArith.
 Import ListNotations.
 Local Open Scope N_scope.
@@ -590,3 +591,40 @@ Theorem C06_response_read_must_not_be_once_guarded :
   px_frame <> [].
 Proof. exact once_guard_injects_response. Qed.
 Print Assumptions C06_response_read_must_not_be_once_guarded.
+
+(* ---------------- the tail of handleTCPRequest with the optional EventLogger (model/C06_Events.v) ---------------- *)
+
+(* Configuration dimension.  For every complete run of the tail (EventLogger call if one is configured, close target,
+   close stream, close connection), with or without an EventLogger: the user's QUIC connection is closed exactly when
+   the copy returned errDisconnect - after both ends were closed - and an EventLogger is handed the copy's own result,
+   once. *)
+Theorem C06_veto_closes_conn_whatever_event_logger : forall evlog e tr,
+  texec false (tail_init evlog e) tr = Some TEnd ->
+  (closes_conn tr = true <-> e = GDisconnect) /\
+  events_of tr = (if evlog then [e] else []) /\
+  (e = GDisconnect -> exists pre, tr = pre ++ [TCloseTarget; TCloseStream; TCloseConn]) /\
+  (e <> GDisconnect -> exists pre, tr = pre ++ [TCloseTarget; TCloseStream]).
+Proof. exact tail_closes_iff. Qed.
+Print Assumptions C06_veto_closes_conn_whatever_event_logger.
+
+(* Configuring an EventLogger adds the one call in front and changes nothing else. *)
+Theorem C06_event_logger_does_not_change_teardown : forall e tr1 tr2,
+  texec false (tail_init true e) tr1 = Some TEnd -> texec false (tail_init false e) tr2 = Some TEnd ->
+  closes_conn tr1 = closes_conn tr2 /\ tr1 = TEvent e :: tr2.
+Proof. exact tail_evlog_irrelevant. Qed.
+Print Assumptions C06_event_logger_does_not_change_teardown.
+
+(* The tail is the teardown of the parent LTS of model/C06_Relay.v (which the veto theorems above are about). *)
+Theorem C06_tail_is_relay_teardown : forall evlog e s,
+  par s = QCloseT e ->
+  exec s (flat_map to_act (tail_run false evlog e)) = Some (setpar s QDone).
+Proof. exact tail_is_relay_tail. Qed.
+Print Assumptions C06_tail_is_relay_teardown.
+
+(* The error shown to the EventLogger must not be cleaned in the variable the close test reads: in that variant a veto
+   closes the connection without an EventLogger and does NOT close it with one. *)
+Theorem C06_event_logger_must_not_clean_the_error_in_place :
+  (exists tr, texec true (tail_init true GDisconnect) tr = Some TEnd /\ closes_conn tr = false) /\
+  (forall tr, texec true (tail_init false GDisconnect) tr = Some TEnd -> closes_conn tr = true).
+Proof. exact remap_refuted. Qed.
+Print Assumptions C06_event_logger_must_not_clean_the_error_in_place.
